@@ -73,7 +73,8 @@ D2 == {Not(t) : t \in {t \in B1 : t.op # "not"}}
       \cup {Bin(o, s, t) : o \in Rels, s \in NL1, t \in NL1}
       \cup {Bin(o, s, t) : o \in AOps, s \in NL1, t \in NL1}
       \cup {Qu(q, n, t) : q \in Qs, n \in QVars, t \in B1}
-\* quantified expressions with deeper bodies, free + bound occurrences, nested binders
+\* fixed family (always used): quantified expressions with deeper bodies, free + bound occurrences,
+\* nested binders; expressions over the remaining leaf kinds
 QBodies == {Bin("and", P(V), A), Bin("and", A, P(V)), Bin("or", Not(P(V)), B), Bin("and", P(V), P(LOC)),
             Bin("implies", Bin("eq", V, LOC), P(V)), Bin("iff", P(V), Not(A)),
             Bin("and", P(V), Qu("exists", "w", Bin("eq", V, Wv))),
@@ -83,7 +84,15 @@ DQ == {Qu(q, "v", t) : q \in Qs, t \in QBodies}
       \cup {Bin("and", P(V), Qu("exists", "v", P(V))), Bin("and", Qu("forall", "v", Bin("and", A, P(V))), A),
             Bin("implies", Qu("exists", "v", Not(P(V))), Bin("eq", V, LOC)),
             Not(Qu("exists", "v", Bin("and", P(V), Not(A)))),
-            Qu("forall", "v", Qu("exists", "w", Bin("and", P(V), P(Wv))))}
+            Qu("forall", "v", Qu("exists", "w", Bin("and", P(V), P(Wv)))),
+            \* the leaf kinds that are not among the quick tier's leaves (every walk_* of the identity walker)
+            Bin("and", TrueC, Not(A)), Bin("le", Half, Bin("plus", X, Rr)), Bin("eq", O1, LOC), Bin("or", P(O1), P(O2)),
+            Bin("lt", Kp, Bin("times", X, Kp)), Bin("eq", Up, LOC), Bin("implies", P(Up), Bin("eq", Wv, LOC2)),
+            \* n-ary operators and a quantifier binding two variables
+            Node("and", <<A, B, Not(A)>>, "", UNDEF, <<>>), Node("plus", <<X, One, X>>, "", UNDEF, <<>>),
+            Node("or", <<P(V), A, Qu("exists", "v", P(V))>>, "", UNDEF, <<>>), Node("times", <<X, Kp, One>>, "", UNDEF, <<>>),
+            Node("forall", <<Bin("eq", V, Wv)>>, "", UNDEF, <<VDecl("v"), VDecl("w")>>),
+            Node("exists", <<Bin("and", P(V), Bin("eq", Wv, LOC))>>, "", UNDEF, <<VDecl("w"), VDecl("v")>>)}
 Deep == {e \in (D2 \ E01) \cup DQ : ~ZeroDen(e) /\ NF(e)}
 Shallow == E01
 DeepAll == SetToSeq(Deep)
